@@ -295,6 +295,15 @@ where
         bit_write: &mut W,
         mut n: u64,
     ) -> Result<(), CopyError<Self::Error, W::Error>> {
+        // With 64-bit words the buffer can hold more than 64 bits (after a
+        // look-ahead): move the first 64 with a fixed-width read and write
+        if self.bits_in_buffer > 64 && n > 64 {
+            let bits = self.read_bits(64).map_err(CopyError::ReadError)?;
+            bit_write
+                .write_bits(bits, 64)
+                .map_err(CopyError::WriteError)?;
+            n -= 64;
+        }
         let from_buffer = Ord::min(n, self.bits_in_buffer as _);
         self.buffer = self.buffer.rotate_left(from_buffer as _);
 
@@ -541,6 +550,15 @@ where
         bit_write: &mut W,
         mut n: u64,
     ) -> Result<(), CopyError<Self::Error, W::Error>> {
+        // With 64-bit words the buffer can hold more than 64 bits (after a
+        // look-ahead): move the first 64 with a fixed-width read and write
+        if self.bits_in_buffer > 64 && n > 64 {
+            let bits = self.read_bits(64).map_err(CopyError::ReadError)?;
+            bit_write
+                .write_bits(bits, 64)
+                .map_err(CopyError::WriteError)?;
+            n -= 64;
+        }
         let from_buffer = Ord::min(n, self.bits_in_buffer as _);
 
         #[allow(unused_mut)]
